@@ -310,6 +310,16 @@ class Gen:
                     return sc[0]
             except (IndexError, KeyError, ValueError):
                 pass
+        if w.get("set_value", 0) and w.get("set_formula", 0) and rng.random() < 0.04:
+            # scenario: an element is assigned, its cells gets another formula (which discards the
+            # assignment), the element is computed, and then a reference the formula reads changes
+            try:
+                sc = self.mk_input_then_formula_scenario()
+                if sc:
+                    self.queue.extend(sc[1:])
+                    return sc[0]
+            except (IndexError, KeyError, ValueError):
+                pass
         if w.get("clear_at", 0) and w.get("set_ref", 0) and rng.random() < 0.05:
             # scenario: two elements read one reference by attribute path; one of them is
             # cleared alone; then the reference is edited and the other one asked again
@@ -366,6 +376,29 @@ class Gen:
              "mode": self.mir["refs"][q][r]["mode"], "via": "attr"},
             {"op": "del_ref", "s": list(q), "n": r}])
         return [ca, cb, {"op": "clear_at", "c": [list(a[0]), [], a[1]], "args": aa}, edit, dict(cb), dict(ca)]
+
+    def mk_input_then_formula_scenario(self):
+        rng = self.rng
+        cells = self.cached_cells()
+        p, c = self.pick_cells(cells)
+        args = self.rand_args(c, False)
+        f = self.formula(p, c)
+        reads = [op[1][0] for op in self.flib[f]["ops"] if op[0] == "read" and len(op[1]) == 1]
+        own = [n for n in reads if n in self.mir["refs"][tp(p)] and self.mir["refs"][tp(p)][n]["v"][0] == "int"]
+        glob = [n for n in reads if n in self.mir["grefs"] and n not in self.mir["refs"][tp(p)]]
+        if own:
+            n = rng.choice(own)
+            edit = {"op": "set_ref", "s": list(p), "n": n, "v": ["int", rng.choice(INT_VALUES), [], ""],
+                    "mode": self.mir["refs"][tp(p)][n]["mode"], "via": "attr"}
+        elif glob:
+            edit = {"op": "set_ref", "s": [], "n": rng.choice(glob),
+                    "v": ["int", rng.choice(INT_VALUES) * 10, [], ""], "mode": "auto"}
+        else:
+            return None
+        call = {"op": "call", "c": [list(p), [], c], "args": args, "sp": "pos"}
+        return [{"op": "set_value", "c": [list(p), [], c], "args": args, "v": rng.choice([500, 600])},
+                {"op": "set_formula", "s": list(p), "c": c, "f": f, "via": "prop"},
+                call, edit, dict(call)]
 
     def mk_recompute_scenario(self):
         lc = self.last_call
